@@ -155,7 +155,7 @@ SPEC = {
         "reread_table_agrees", "cast_drop_agrees", "reread_only_int32",
         "reelab_no_new_casts", "reelab_stmt_no_new_casts", "export_is_source", "unelab_is_export", "renamed_exists",
         "reelab_idempotent", "reelab_fails_out_argument",
-        "bridge_square", "skeleton_and_constants", "reread_payloads_as_modelled", "leaf_value_preserved", "parsesBack_of_c09", "fixpoint_expr", "fixpoint_expr_text",
+        "bridge_square", "skeleton_and_constants", "reread_payloads_as_modelled", "leaf_value_preserved", "parsesBack_of_c09", "fixpoint_expr", "fixpoint_expr_text", "fixpoint_stmt",
         "namesAgreeEx", "idxInjEx"]] + LEG_THEOREMS,
     "harness": "c04",
     "custom": custom,
